@@ -542,7 +542,22 @@ def ids_enum(tier, seed):
     with ThreadPoolExecutor(max_workers=chunks) as ex:
         parts = list(ex.map(lambda i: run_lab(lab, reqs[i * per:(i + 1) * per]) if reqs[i * per:(i + 1) * per] else [], range(chunks)))
     results = [r for p in parts for r in p]
-    stats = {"ok": 0, "duplicate": 0, "exceeds": 0, "with_disabled": 0, "unsafe": 0, "tokens": 0}
+    # the same requests through the generators compiled WITHOUT debug assertions (the profile a release
+    # build of a client compiles the proc-macro crate in): the outcome must be the same
+    lab_nda = build_macrolab(debug_assertions=False)
+    with ThreadPoolExecutor(max_workers=chunks) as ex:
+        parts2 = list(ex.map(lambda i: run_lab(lab_nda, reqs[i * per:(i + 1) * per]) if reqs[i * per:(i + 1) * per] else [], range(chunks)))
+    results2 = [r for p in parts2 for r in p]
+    def _outcome(r):
+        return (r.get("res"), err_class(r.get("msg", "")) if r.get("res") == "err" else "", json.dumps(r.get("world"), sort_keys=True))
+    ndiff = 0
+    for (ii, level, twin), r1, r2 in zip(index, results, results2):
+        if _outcome(r1) != _outcome(r2):
+            ndiff += 1
+            if ndiff <= 40:
+                violations.append({"tags": ["C19", "C15"], "what": "%s-level ids: the generators built without debug assertions decide differently: %s vs %s" % ("archetype" if level == "arch" else "component", _outcome(r2)[:2], _outcome(r1)[:2]),
+                                   "at": ii, "event": {"items": items[ii]["items"], "asg": items[ii]["asg"], "with_debug_assertions": r1, "without": r2}, "origin": {"engine": "ids-lib-nda", "level": level, "twin": twin}})
+    stats = {"ok": 0, "duplicate": 0, "exceeds": 0, "with_disabled": 0, "unsafe": 0, "tokens": 0, "compared_without_debug_assertions": len(results2), "differences": ndiff}
     for (ii, level, twin), res in zip(index, results):
         item = items[ii]
         if twin and not ids_expected(item, level):
